@@ -151,8 +151,26 @@ Shapes ==
     S18 |-> ShP(<<0, 1>>, <<"agg", "task">>, <<T, F>>, <<1, 3>>),
     S19 |-> ShP(<<0, 1, 2, 1>>, <<"agg", "agg", "task", "task">>, <<T, T, F, T>>, <<1, 5, 6, 8>>),
     \* three tasks under one non-root aggregator (three overlapping updates passing through it)
-    S20 |-> Sh(<<0, 1, 2, 2, 2>>, <<"agg", "agg", "task", "task", "task">>, <<T, T, T, T, T>>)
+    S20 |-> Sh(<<0, 1, 2, 2, 2>>, <<"agg", "agg", "task", "task", "task">>, <<T, T, T, T, T>>),
+    \* roles generated by `for:` iterators (see Iterated): two copies of an aggregator template, two copies
+    \* of a call template, and a task outside the iterators
+    S21 |-> Sh(<<0, 1, 2, 1, 4, 1, 1, 1>>, <<"agg", "agg", "task", "agg", "task", "call", "call", "task">>,
+               <<T, T, T, T, T, T, T, T>>),
+    \* two copies of an aggregator template without critical descendant, next to a critical task
+    S22 |-> Sh(<<0, 1, 2, 1, 4, 1>>, <<"agg", "agg", "task", "agg", "task", "task">>, <<T, T, F, T, F, T>>)
   ]
+
+(* Which sibling roles of a shape the workflow template expresses as ONE `for:` iterator over a role    *)
+(* template (iteratorrole.go: expandTemplate generates the copies with copy(); they become ordinary     *)
+(* children of the enclosing aggregator - GetRoles flattens iterators - and start like any loaded role). *)
+Iterated ==
+  [ S11 |-> << <<2, 4>> >>,
+    S21 |-> << <<2, 4>>, <<6, 7>> >>,
+    S22 |-> << <<2, 4>> >> ]
+ASSUME \A s \in DOMAIN Iterated : s \in DOMAIN Shapes /\
+         \A i \in 1..Len(Iterated[s]) : \A j \in 1..Len(Iterated[s][i]) :
+            LET g == Iterated[s][i] sh == Shapes[s] IN
+              sh.parent[g[j]] = sh.parent[g[1]] /\ sh.kind[g[j]] = sh.kind[g[1]] /\ sh.crit[g[j]] = sh.crit[g[1]]
 
 (* Workflow templates with roles disabled by their `enabled` field. The loader (ProcessTemplates) *)
 (* prunes a disabled role with its subtree, and an aggregator / include left without roles; the   *)
